@@ -447,7 +447,7 @@ impl Scenario for InterpDriver {
         }
     }
 
-    fn generate(&self, rng: &mut Rng, tier: Tier) -> Plan {
+    fn generate(&self, rng: &mut Rng, tier: Tier, _index: u64) -> Plan {
         // rare recursion probe: a program of n nested taken conditionals built through from_script_bits
         if rng.chance(1, 3000) {
             let n = if tier == Tier::Thorough { *rng.pick(&[200u64, 5_000, 20_000, 60_000, 150_000]) } else { *rng.pick(&[50u64, 200, 3_000]) };
